@@ -575,6 +575,9 @@ func checkCase(t ev.TB, c sc.Case) {
 	if len(before) == 0 {
 		labels = append(labels, "result:no-glyphs")
 	}
+	if c.RunEnd-c.RunStart > 64 {
+		labels = append(labels, "run:long(>64)")
+	}
 	if st.wordEligible > 0 {
 		labels = append(labels, "word-separator:eligible")
 	}
@@ -599,7 +602,7 @@ func checkCase(t ev.TB, c sc.Case) {
 	}
 }
 
-var genOpts = sc.Opts{ValidOnly: true, Spacing: true}
+var genOpts = sc.Opts{ValidOnly: true, Spacing: true, LongMax: 300}
 
 // TestPropGeometry: stratified font draw per case.
 func TestPropGeometry(t *testing.T) {
